@@ -10,6 +10,7 @@ import (
 	"math/big"
 	"reflect"
 	"runtime"
+	"sort"
 
 	"github.com/LemoFoundationLtd/lemochain-core/common"
 	"github.com/LemoFoundationLtd/lemochain-core/common/rlp"
@@ -141,6 +142,22 @@ func initDecoders() {
 			return v, rlp.NewStream(bytes.NewReader(b), 0).Decode(v)
 		}})
 	}
+}
+
+// stabilise makes the encoding of a value holding a Go map independent of this run's map iteration
+// order (AccountData.NewestRecords): the record items are sorted, so that derived byte strings are a
+// function of the seed only.
+func stabilise(name string, e []byte) []byte {
+	if name != "AccountData" {
+		return e
+	}
+	root, err := parseRLP(e)
+	if err != nil || !root.list || len(root.kids) != 13 || !root.kids[11].list {
+		return e
+	}
+	recs := root.kids[11].kids
+	sort.Slice(recs, func(i, j int) bool { return bytes.Compare(recs[i].encode(nil), recs[j].encode(nil)) < 0 })
+	return root.encode(nil)
 }
 
 // ---------------------------------------------------------------- mutation
@@ -351,6 +368,10 @@ func (m *mon) bytesOne(b []byte, cs *Case) (accepted int) {
 			m.viol(cs, "decoded-value-panics:"+o.d.name, fmt.Sprintf("value decoded by %s panics when hashed / signers recovered / re-encoded: %s", o.d.name, p))
 			continue
 		}
+		if o.d.cd != nil && o.d.cd.mapped {
+			// independent of this run's map iteration order
+			enc2, b = stabilise(o.d.cd.name, enc2), stabilise(o.d.cd.name, b)
+		}
 		if err == nil && !bytes.Equal(enc2, b) {
 			// type level leniency (e.g. short hash padded, nil pointer from empty list, trailing bytes through Msg.Decode): recorded, not judged
 			c.Stat("accepted_inputs_reencoding_differently", 1)
@@ -372,6 +393,7 @@ func (m *mon) bytesRun(n int) {
 			if err != nil || len(e) > 20000 {
 				continue
 			}
+			e = stabilise(t.name, e)
 			pool[t.name] = append(pool[t.name], e)
 			all = append(all, e)
 		}
